@@ -317,7 +317,27 @@ where
             self.process_internal_events().await?;
             self.process_client_cmds().await?;
             self.process_inbound_events().await?;
+            #[cfg(d_engine_verif)]
+            self.verif_emit_state();
         }
+    }
+
+    /// Report role/term/commit/vote to the simulator's observer (verification builds only).
+    #[cfg(d_engine_verif)]
+    pub fn verif_emit_state(&self) {
+        let st = self.role.state();
+        let shared = st.shared_state();
+        crate::verif::emit(&crate::verif::Event::State(crate::verif::RaftStateView {
+            node_id: self.node_id,
+            role: self.role.as_i32(),
+            term: shared.current_term(),
+            commit_index: shared.commit_index,
+            voted_for: shared
+                .hard_state
+                .voted_for
+                .map(|v| (v.voted_for_id, v.voted_for_term, v.committed)),
+            leader: shared.current_leader(),
+        }));
     }
 
     /// Drain all pending inbound events (up to max_batch_size).
@@ -750,6 +770,9 @@ where
                 }
             }
         };
+
+        #[cfg(d_engine_verif)]
+        self.verif_emit_state();
 
         Ok(())
     }
